@@ -36,3 +36,7 @@ CLAIMS['C07'] = ('other', 'proved: Wire / InnerPin / OuterPin / Port / Cable / I
                  'bounded: netlist / library / definition clones (and the element clones again) against canon equality, identity-disjointness, pointer closure, snapshots and edit independence over seeded designs', _MIX + '; ' + _BN, _MT, 'DESIGN.md 0.1, 6/C07')
 CLAIMS['C11'] = ('other', 'proved: HRef.is_valid returns exactly whether the reference is a path of the current netlist (root = top instance of the netlist holding its definition, each further element inside the definition referenced by the instance before it), never raises, writes nothing, for all heaps satisfying Inv; '
                  'bounded: the five get_h* enumerations (single and mixed roots), canonicity, is_unique, validity after edit sequences, over seeded designs', _MIX + '; ' + _BN, _MT, 'DESIGN.md 0.1, 6/C11')
+CLAIMS['C03'] = ('other', 'proved: ComposeEdif._get_wire_index_ (the bit index the EDIF writer emits for a wire of a net) == position in cable.wires + lower_index, for all heaps satisfying Inv; '
+                 'bounded: canon(parse(compose(n))) == canon(n) over seeded designs, reader-produced netlists and bundled files', _MIX + '; ' + _BN, _MT, 'DESIGN.md 0.1, 6/C03')
+CLAIMS['C04'] = ('other', 'proved: Composer._index_of_wire_in_cable (the bit index the Verilog writer emits for a wire) == position in its cable + lower_index, never None for a wire of a cable, for all heaps satisfying Inv; '
+                 'bounded: canon(parse(compose(t(parse(f))))) == canon(t(parse(f))) for t in none/clone/uniquify/flatten over seeded designs and bundled files', _MIX + '; ' + _BN, _MT, 'DESIGN.md 0.1, 6/C04')
